@@ -456,32 +456,50 @@ func realRoundTrip(raw json.RawMessage) any {
 	if req2.ProjectName == "" && a.SkipNorm {
 		// without normalisation the first load took the name from the document; the rendering carries it too
 	}
-	p2, err := req2.LoadIn(root)
-	if err != nil || p2 == nil {
-		return rtOut{Fail: "reload-error:" + a.Format + ":" + errKey(err, root), What: fmt.Sprintf("the rendering does not load: %v\n%s", core.ScrubErr(err, root), clip(string(b1), 1500)), Covered: covered}
-	}
-	sortSSH(p2)
-	if ds := diffProjects(p, p2, a.Format == "json"); len(ds) > 0 {
-		sort.Slice(ds, func(i, j int) bool { return ds[i].Field < ds[j].Field })
-		d := ds[0]
-		k := "roundtrip:" + d.Field + ":" + a.Format
-		if d.Dollar {
-			k = "roundtrip-dollar:" + d.Field + ":" + a.Format
-		} else if d.Order {
-			k = "roundtrip-order:" + d.Field + ":" + a.Format
+	// reload under one caller contract, compare, render again; pre = key prefix of that contract
+	check := func(r core.LoadReq, pre string) *rtOut {
+		p2, err := r.LoadIn(root)
+		if err != nil || p2 == nil {
+			return &rtOut{Fail: pre + "reload-error:" + a.Format + ":" + errKey(err, root), What: fmt.Sprintf("the rendering does not load: %v\n%s", core.ScrubErr(err, root), clip(string(b1), 1500)), Covered: covered}
 		}
-		var all []string
-		for _, x := range ds {
-			all = append(all, fmt.Sprintf("%s: %s → %s", x.Path, x.A, x.B))
+		sortSSH(p2)
+		if ds := diffProjects(p, p2, a.Format == "json"); len(ds) > 0 {
+			sort.Slice(ds, func(i, j int) bool { return ds[i].Field < ds[j].Field })
+			d := ds[0]
+			k := pre + "roundtrip:" + d.Field + ":" + a.Format
+			if d.Dollar && pre == "" {
+				k = "roundtrip-dollar:" + d.Field + ":" + a.Format
+			} else if d.Order {
+				k = pre + "roundtrip-order:" + d.Field + ":" + a.Format
+			}
+			var all []string
+			for _, x := range ds {
+				all = append(all, fmt.Sprintf("%s: %s → %s", x.Path, x.A, x.B))
+			}
+			return &rtOut{Fail: k, What: "reloaded project differs: " + clip(strings.Join(all, "; "), 1200), Covered: covered}
 		}
-		return rtOut{Fail: k, What: "reloaded project differs: " + clip(strings.Join(all, "; "), 1200), Covered: covered}
+		b2, err := render(p2)
+		if err != nil {
+			return &rtOut{Fail: pre + "rerender-error:" + a.Format, What: err.Error(), Covered: covered}
+		}
+		if string(b1) != string(b2) {
+			return &rtOut{Fail: pre + "rerender-differs:" + a.Format + ":" + firstDiffLine(string(b1), string(b2)), What: "second rendering differs from the first", Covered: covered}
+		}
+		return nil
 	}
-	b2, err := render(p2)
-	if err != nil {
-		return rtOut{Fail: "rerender-error:" + a.Format, What: err.Error(), Covered: covered}
+	// Contract B (design/C09.md §"the `$` contract"): the rendering carries every `$` literally, so the caller who wants the
+	// equivalent project back reloads it with interpolation skipped.  Under that contract the round trip must be exact —
+	// no recorded finding applies to it.
+	if strings.Contains(string(b1), "$") {
+		rb := req2
+		rb.SkipInterpolation = true
+		if o := check(rb, "nointerp-"); o != nil {
+			return *o
+		}
 	}
-	if string(b1) != string(b2) {
-		return rtOut{Fail: "rerender-differs:" + a.Format + ":" + firstDiffLine(string(b1), string(b2)), What: "second rendering differs from the first", Covered: covered}
+	// Contract A (default: same options as the first load); the `roundtrip-dollar:*` keys are recorded for it only.
+	if o := check(req2, ""); o != nil {
+		return *o
 	}
 	return rtOut{Ok: true, Covered: covered, Bytes: len(b1)}
 }
